@@ -6,6 +6,7 @@ import os
 import time
 import zipfile
 from typing import Any, Dict, Optional
+from xml.sax.saxutils import quoteattr
 
 import jinja2
 
@@ -43,7 +44,7 @@ def make_xml_attrib(attrib_name: str, attrib_val: Optional[Any]) -> str:
     if attrib_val is None:
         return ""
 
-    return f' {attrib_name}="{attrib_val}"'
+    return f' {attrib_name}={quoteattr(str(attrib_val))}'
 
 
 def make_bool_xml_attrib(attrib_name: str, attrib_val: Optional[bool]) -> str:
